@@ -11,6 +11,7 @@ import NutsProofs.Lemmas.C18Deep
 import NutsProofs.Lemmas.C18X
 import NutsModel.C18.RCacheOld
 import NutsProofs.Lemmas.C18Jwk
+import NutsProofs.Lemmas.C18Chain
 
 namespace Nuts.C18.Props
 open Nuts Nuts.C18
@@ -626,6 +627,64 @@ example :
 
 example : b64Decode (b64Enc [123, 34, 107, 116, 121, 34, 58, 49, 125]) = .ok [123, 34, 107, 116, 121, 34, 58, 49, 125] :=
   b64_decode_encode _ (by decide)
+
+/-! ### Deepening round 3: vdr/resolver/did.go as general code — chains of any length, router registrations -/
+
+/-- the loop of `ChainedDIDResolver.Resolve` and the lookup of `DIDResolverRouter.Resolve` as regenerated from the source -/
+theorem fact_chain_router_flow :
+    Facts.C18.chainFlow_Resolve =
+      ["range c.Resolvers", "document, metadata, err := resolver.Resolve(id, metadata)", "if err == nil", "return document, metadata, nil",
+       "else", "if errors.Is(err, ErrNotFound)", "continue", "else", "return nil, nil, err", "return nil, nil, ErrNotFound"] ∧
+    Facts.C18.routerFlow_Resolve =
+      ["method := id.Method", "didResolver, registered := r.resolvers.Load(method)", "if !registered",
+       "return nil, nil, ErrDIDMethodNotSupported", "return <*ast.TypeAssertExpr>.Resolve(id, metadata)"] ∧
+    Facts.C18.routerFlow_Register = ["call r.resolvers.Store(method, resolver)"] ∧
+    Facts.C18.deactivatedIsFlow = ["_, result := <*ast.TypeAssertExpr>", "return result"] := by decide
+
+/-- **The first answer of a chain wins, for chains of ANY length**: every resolver asked before the last one said
+    NotFound; a result other than NotFound is the answer of the last resolver asked; NotFound means every resolver was
+    asked and said NotFound -/
+theorem chain_first_answer_wins (l : List ROut) :
+    (chainResolve l).2 ≤ l.length ∧
+    (∀ i, i + 1 < (chainResolve l).2 → l[i]? = some .notFound) ∧
+    ((chainResolve l).1 ≠ .notFound → 0 < (chainResolve l).2 ∧ l[(chainResolve l).2 - 1]? = some (chainResolve l).1) ∧
+    ((chainResolve l).1 = .notFound → (chainResolve l).2 = l.length ∧ ∀ x ∈ l, x = .notFound) :=
+  chain_spec_l l
+
+/-- **Nothing after the first answer is asked or matters** — in particular an error of the node's own store
+    (deactivated, no active controller, storage fault) ends the chain: no later (network) resolver can overrule it -/
+theorem chain_stops_at_first_answer (pre post : List ROut) (a : ROut) (hpre : ∀ x ∈ pre, x = .notFound) (ha : a ≠ .notFound) :
+    chainResolve (pre ++ a :: post) = (a, pre.length + 1) :=
+  chain_stops_l pre post a hpre ha
+
+/-- the router hands a DID only to a resolver registered under EXACTLY its method (byte-wise), and a later registration
+    of a method replaces the earlier one -/
+theorem router_exact_method {β} (regs : List (Bytes × β)) (method : Bytes) (r : β) (h : routerLookup regs method = some r) :
+    (method, r) ∈ regs :=
+  router_exact_l regs method r h
+
+theorem router_last_registration_wins {β} (regs : List (Bytes × β)) (method : Bytes) (r : β) :
+    routerLookup (regs ++ [(method, r)]) method = some r :=
+  router_last_wins_l regs method r
+
+/-- **Refinement**: the node's did:web resolution (`resolve`, the abstract layer of `local_first_no_network`,
+    `deactivated_needs_flag`, …) IS the general chain over [own SQL store, web]: same result class, and requests are made
+    exactly when the chain reached its second member -/
+theorem resolve_web_is_chain (dec : List Nat) (cts : List Bytes) (pol : Policy) (strict : Bool) (n : Node) (allow : Bool) (d : DID)
+    (srv : Nat → Req → Option Resp) (hm : d.method = sWeb) (hs : n.didMethods.contains sWeb = true) :
+    let c := chainResolve [toROut (resolveLocal (n.localState d) allow d), toROut (webOut dec cts pol strict d srv).2]
+    toROut (resolve dec cts pol true strict n allow d srv).2 = c.1 ∧
+    (resolve dec cts pol true strict n allow d srv).1 = (if c.2 = 2 then (webOut dec cts pol strict d srv).1 else []) :=
+  resolve_web_is_chain_l dec cts pol strict n allow d srv hm hs
+
+/-- non-vacuity: three resolvers; a deactivated answer of the second one ends the chain although the third would resolve -/
+example : chainResolve [.notFound, .fail "deactivated", .ok 7] = (.fail "deactivated", 2) ∧
+    chainResolve [.notFound, .notFound, .ok 7] = (.ok 7, 3) ∧ chainResolve [.notFound, .notFound] = (.notFound, 2) ∧
+    chainResolve [] = (.notFound, 0) ∧
+    routerLookup [([119], 1), ([106], 2), ([119], 3)] [119] = some 3 ∧ routerLookup [([119], 1)] [87] = (none : Option Nat) := by decide
+
+example : chainResolve ([.notFound] ++ .fail "db" :: [.ok 1]) = (.fail "db", 2) :=
+  chain_stops_at_first_answer [.notFound] [.ok 1] (.fail "db") (by simp) (by simp)
 
 /-! ### Deepening round 2: did:x509 (vdr/didx509) — the document is bound to the identifier AND to the presented chain -/
 
